@@ -162,6 +162,27 @@ def _pa_hook(v, val):
     return NotImplemented
 
 
+def _pp_setup(interp):
+    for n in ('QuotedString', 'Word', 'delimitedList', 'delimited_list',
+              'DelimitedList', 'Literal', 'Regex', 'OneOrMore',
+              'ZeroOrMore', 'Optional', 'Suppress', 'Group', 'Combine',
+              'CharsNotIn', 'StringStart', 'StringEnd', 'And', 'Or',
+              'MatchFirst', 'Each', 'White', 'LineEnd', 'Empty',
+              'SkipTo', 'Opt', 'NotAny', 'FollowedBy'):
+        interp.pure_calls.add('pyparsing.' + n)
+    interp.pure_methods.update({'parseString', 'parse_string'})
+    interp.pure_prefixes = ('pyparsing.',)
+    interp.method_raises['parseString'] = ['pyparsing.ParseException']
+    interp.method_raises['parse_string'] = ['pyparsing.ParseException']
+    interp.call_raises['[]'] = ['IndexError']
+    from .c18 import _rebind_parse_action
+    for n in ('setParseAction', 'set_parse_action', 'addParseAction',
+              'add_parse_action'):
+        interp.rebind_methods[n] = _rebind_parse_action
+    from .c18 import install_configurators
+    install_configurators(interp)
+
+
 def _split_by_commas(ctx):
     rep, world = ctx.report, ctx.world
     f = world.func(MOD, 'split_by_commas')
@@ -173,24 +194,7 @@ def _split_by_commas(ctx):
 
     def setup(interp):
         interp.types[value] = 'str'
-        for n in ('QuotedString', 'Word', 'delimitedList', 'delimited_list',
-                  'DelimitedList', 'Literal', 'Regex', 'OneOrMore',
-                  'ZeroOrMore', 'Optional', 'Suppress', 'Group', 'Combine',
-                  'CharsNotIn', 'StringStart', 'StringEnd', 'And', 'Or',
-                  'MatchFirst', 'Each', 'White', 'LineEnd', 'Empty',
-                  'SkipTo', 'Opt', 'NotAny', 'FollowedBy'):
-            interp.pure_calls.add('pyparsing.' + n)
-        interp.pure_methods.update({'parseString', 'parse_string'})
-        interp.pure_prefixes = ('pyparsing.',)
-        interp.method_raises['parseString'] = ['pyparsing.ParseException']
-        interp.method_raises['parse_string'] = ['pyparsing.ParseException']
-        interp.call_raises['[]'] = ['IndexError']
-        from .c18 import _rebind_parse_action
-        for n in ('setParseAction', 'set_parse_action', 'addParseAction',
-                  'add_parse_action'):
-            interp.rebind_methods[n] = _rebind_parse_action
-        from .c18 import install_configurators
-        install_configurators(interp)
+        _pp_setup(interp)
     outcomes, _i = extract(world, thunk, setup=setup)
     alphabet = ('a', 'b', ',', '"', '\\', ' ', 'a b', 'x,y', '', 'ab',
                 'a,,b', ',,', 'a\\"b', '\\"', '"\\', '\\\\"')
@@ -252,3 +256,33 @@ def run(ctx):
              'quoting and empty unquoted items with ValueError')
     _split_path(ctx)
     _split_by_commas(ctx)
+    _history(ctx)
+
+
+def _history(ctx):
+    from ..core.table import history_family
+    rep, world = ctx.report, ctx.world
+    rep.rule('R19.5', 'no state between calls: a path / list is split the '
+             'same whatever was split before (with other bounds, by the '
+             'sibling function)')
+    funcs = {n: world.func(MOD, n) for n in ('split_path',
+                                             'split_by_commas')}
+    s, c = 'split_path', 'split_by_commas'
+    pairs = [
+        ((s, ['/a/c/o', 1, 3, True], {}), (s, ['/a/c/o', 1, 3, False], {})),
+        ((s, ['/a/c/o', 1, 3], {}), (s, ['/a/c/o', 1, 2], {})),
+        ((s, ['/a/c/o/x', 1, 3, True], {}),
+         (s, ['/a/c/o/x', 1, 3, False], {})),
+        ((s, ['/a/c/o/x', 1, 3, False], {}),
+         (s, ['/a/c/o/x', 1, 3, True], {})),
+        ((s, ['/a', 1, 1], {}), (s, ['/a', 2, 2], {})),
+        ((s, ['/a/c', 2, 2], {}), (s, ['/a/c'], {})),
+        ((s, ['/a/c'], {}), (s, ['/a/c/'], {})),
+        ((c, ['a,b'], {}), (c, ['a,"b,c"'], {})),
+        ((c, ['"a"'], {}), (c, ['a'], {})),
+        ((c, ['a,'], {}), (c, ['a'], {})),
+        ((s, ['/a,b'], {}), (c, ['/a,b'], {})),
+    ]
+    n = history_family(rep, 'R19.5', 'splitters[after an earlier call]',
+                       world, funcs, pairs, setup=_pp_setup)
+    rep.count('call histories decided', n, floor=len(pairs))
